@@ -207,6 +207,13 @@ func compileRT(c foldCase, cons []consumer, rexpr string) compiledProg {
 	return p
 }
 
+func probeType(t ityp) string {
+	if t.signed {
+		return "int512"
+	}
+	return "uint512"
+}
+
 func hexs(v []*big.Int) string {
 	s := make([]string, len(v))
 	for i, x := range v {
@@ -269,27 +276,53 @@ func runCase(o *hxlib.Out, r *hxlib.Rng, c foldCase, verbose bool) (foldDesc str
 		}
 		return
 	}
+	// the run-time variant's own result (independent of the constant variant)
+	{
+		xt := c.t
+		if xt.isBool() {
+			xt = ityp{false, 8}
+		}
+		rin := []*big.Int{c.t.enc(c.a)}
+		if !c.op.unary && !c.op.shift {
+			rin = append(rin, c.t.enc(c.b))
+		}
+		rin = append(rin, big.NewInt(1), big.NewInt(0))
+		if ro, e := compute(rRet.circ, rin); e == "" {
+			rtOut = "ok " + ro[0].Text(16)
+		} else {
+			rtOut = errClass(e)
+		}
+	}
 	if cRet.err != "" {
 		d := c.classify()
 		d["stage"] = "const-ret"
 		d["consumer"] = "ret"
 		d["detail"] = cRet.err
-		d["const_program"] = ce
+		d["const_expr"] = ce
 		if errClass(cRet.err) == "panic" {
 			store.add(o, "c12-fold-panic", d)
 		} else {
 			store.add(o, "c12-const-variant-rejected", d)
 		}
 		o.Count("const_variant_" + errClass(cRet.err))
-	} else {
-		if cv, isConst := foldedConstant(cRet.prog); isConst {
+	}
+	// the folded constant itself: returned into a type wide enough for any
+	// MinBits, so that Return's CanAssign check cannot hide it
+	probe := cRet
+	if cRet.err != "" && errClass(cRet.err) == "error" && !c.op.cmp {
+		probe = compileReal(strings.Replace(buildProgram(c.t, ce, c.op.cmp, retOnly, false, c.op.unary, c.op.shift),
+			") ("+c.t.name()+") {", ") ("+probeType(c.t)+") {", 1))
+		foldDesc = errClass(probe.err)
+	}
+	if probe.err == "" {
+		if cv, isConst := foldedConstant(probe.prog); isConst {
 			foldDesc = "ok " + describeConst(cv)
 			o.Count("folded")
 		} else {
 			foldDesc = "notfolded"
 			o.Count("not_folded")
 		}
-		if n := unfoldedConstInstrs(cRet.prog); n > 0 {
+		if n := unfoldedConstInstrs(probe.prog); n > 0 {
 			o.Count("unfolded_const_instr")
 		}
 	}
@@ -325,7 +358,6 @@ func runCase(o *hxlib.Out, r *hxlib.Rng, c foldCase, verbose bool) (foldDesc str
 				return
 			}
 			if xi == 0 && len(cons) > 0 && cons[0].name == "ret" {
-				rtOut = "ok " + ro[0].Text(16)
 				cretOut = "ok " + co[0].Text(16)
 			}
 			for i, cn := range cons {
